@@ -6,11 +6,12 @@ from gen import extract_facts
 generate_facts = extract_facts.generate
 
 ID = "C11"
-LEAN_MODULES = ["Econf.Props.C11", "Econf.Props.Tie", "Econf.Props.Leaf"]
+LEAN_MODULES = ["Econf.Props.C11", "Econf.Props.Tie", "Econf.Props.Leaf", "Econf.Props.LeafKf"]
 THEOREMS = ["Econf.C11_set", "Econf.C11_get", "Econf.C11_keys", "Econf.C11_groups", "Econf.C11_refused", "Econf.C11_brackets",
             "Econf.C11_get_set_same", "Econf.C11_get_set_other", "Econf.C11_keys_set", "Econf.C11_default", "Econf.C11_step",
             "Econf.C11_refines", "Econf.C11_fresh", "Econf.Struct.tie_macros", "Econf.Struct.api_frames",
-            "Leaf.C_stripbrackets", "Leaf.stripSpec_eq"]
+            "Leaf.C_stripbrackets", "Leaf.stripSpec_eq",
+            "LeafKf.C_find_key", "LeafKf.find_key_exec", "LeafKf.fkCode_model", "LeafKf.find_key_shape", "LeafKf.getFromGroupList_exec", "LeafKf.C_first_entry"]
 # string helpers translated from the C source on every run (gen/c2lean.py); theorems in lean/Econf/Props/Leaf.lean
 LEAF_FNS = ["stripbrackets", "find_key", "getFromGroupList"]
 RULE = ("random sequences of create/set/get/get-with-default/list operations (1..60, thorough ..300) over a small universe of sections "
@@ -167,8 +168,10 @@ def oracle(s, lines):
                 g = unh(t[2])
                 g = NONE if (g is None or g == b"") else g
                 ks = []
+                # (a parsed start can hold more than one definition of a key: the listing shows the definitions in file order
+                #  - C02 -, look-ups see the first one; entries made by the setters are never duplicates)
                 for it in ref.items:
-                    if it[0] == g and it[1] not in ks:
+                    if it[0] == g:
                         ks.append(it[1])
                 want = "keys E0" + "".join(" h" + x.hex() for x in ks) if ks else "keys E5"
                 if res != want:
